@@ -72,8 +72,9 @@ PKP = "d/pk.pcap"
 LONG = "d/" + "n" * 300          # ENAMETOOLONG
 LOOP = "d/loop"                  # symlink to itself: ELOOP
 PROCMEM = "/proc/self/mem"       # opens fine, every read(2) at offset 0 fails with EIO
+PROCDIR = "/proc/self"           # a directory that reports size 0: opens fine, every read(2) fails with EISDIR
 PATH_IDS = {GOOD: 1, SMALL: 2, EXISTS: 3, DIR: 4, NOTDIR: 5, MISSING: 6, NODIR: 7, FULL: 8, GOODP: 9, TRUNCP: 10,
-            EMPTYP: 11, SHORTP: 12, GARBP: 13, PKP: 14, PROCMEM: 15}
+            EMPTYP: 11, SHORTP: 12, GARBP: 13, PKP: 14, PROCMEM: 15, PROCDIR: 16}
 
 
 def fresh_path(i):
@@ -182,10 +183,10 @@ def systematic_cases():
 
     # A. real failing targets
     for mode in ("r", "w", "a", "x"):
-        for path in (MISSING, DIR, EXISTS, NOTDIR, NODIR, FULL, GOOD, fresh_path(0), LONG, LOOP, PROCMEM):
+        for path in (MISSING, DIR, EXISTS, NOTDIR, NODIR, FULL, GOOD, fresh_path(0), LONG, LOOP, PROCMEM, PROCDIR):
             if path == FULL and mode == "r":
                 continue
-            if path == PROCMEM and mode != "r":
+            if path in (PROCMEM, PROCDIR) and mode != "r":
                 continue
             ops = [{"op": "open", "path": path, "mode": mode, "var": "h"}]
             if mode == "r":
@@ -314,8 +315,8 @@ def gen_random(rng, deep=False):
             if which == "open":
                 mode = rng.weighted([(45, "r"), (25, "w"), (15, "a"), (15, "x")])
                 if mode == "r":
-                    path = rng.weighted([(40, GOOD), (15, SMALL), (8, MISSING), (10, DIR), (8, NOTDIR), (5, NODIR), (7, GOODP), (7, EXISTS), (4, LONG), (4, LOOP), (7, PROCMEM)])
-                    kind = "reader" if path in (GOOD, SMALL, GOODP, EXISTS) else ("dirreader" if path in (DIR, PROCMEM) else "err")  # generator-side kind only
+                    path = rng.weighted([(40, GOOD), (15, SMALL), (8, MISSING), (10, DIR), (8, NOTDIR), (5, NODIR), (7, GOODP), (7, EXISTS), (4, LONG), (4, LOOP), (7, PROCMEM), (5, PROCDIR)])
+                    kind = "reader" if path in (GOOD, SMALL, GOODP, EXISTS) else ("dirreader" if path in (DIR, PROCMEM, PROCDIR) else "err")  # generator-side kind only
                 else:
                     path = rng.weighted([(40, "fresh"), (12, EXISTS), (8, DIR), (8, NOTDIR), (8, NODIR), (16, FULL), (8, GOOD), (4, LONG), (4, LOOP)])
                     if path == "fresh":
@@ -757,10 +758,10 @@ def _expect_create(op, info, file_state, st):
     path, mode = op["path"], op["mode"]
     exists = path in file_state or path in (DIR, FULL, LOOP)
     if mode == "r":
-        if path in (MISSING, NOTDIR, NODIR, LONG, LOOP) or (path not in file_state and path not in (DIR, PROCMEM)):
+        if path in (MISSING, NOTDIR, NODIR, LONG, LOOP) or (path not in file_state and path not in (DIR, PROCMEM, PROCDIR)):
             return False, "err", {}
         if o == "open":
-            if path == PROCMEM:
+            if path in (PROCMEM, PROCDIR):
                 # reads of /proc/self/mem at offset 0 fail with EIO on Linux: every read must give an
                 # error object (if a kernel ever let such a read succeed, the recorded history shows it
                 # and the operation is then not judged)
@@ -770,7 +771,7 @@ def _expect_create(op, info, file_state, st):
             if file_state[path] is None:
                 return True, "reader", {"data": None, "cur": 0, "dist": True, "srcpath": path}
             return True, "reader", {"data": file_state[path], "cur": 0, "srcpath": path}
-        if path in (DIR, PROCMEM):
+        if path in (DIR, PROCMEM, PROCDIR):
             return False, "err", {}
         data = file_state[path]
         if data is None:
